@@ -1,6 +1,7 @@
 import I18nVerif.Proofs.FormatSpec
 import I18nVerif.Proofs.FormatCache
 import I18nVerif.Proofs.FormatWs
+import I18nVerif.Model.TFormat
 /-!
 # C18 — Formatters apply the declared options for the locale being rendered
 
@@ -144,6 +145,27 @@ theorem C18_unrecognised_value_ignored (name : Str) (pre post : List (Str × Str
     · simp [OptDecl.setBy, h ds hds d hd hk]
     · simp [OptDecl.setBy, hk])
 
+/-! the hypotheses of the three theorems above are satisfiable (and the old book spelling `list_length` is an
+unknown option: it changes nothing) -/
+example (post : List (Str × Str)) :
+    valueOf "list".toList "list_style"
+      ([("list_length".toList, "short".toList), ("list_style".toList, "long".toList)] ++
+        ("list_style".toList, "narrow".toList) :: post) = "narrow".toList :=
+  C18_first_recognised_wins "list".toList _ ⟨"list_style", .oneOf ["wide", "short", "narrow"], "wide"⟩ rfl (by decide)
+    _ post _ (by decide) (by decide)
+
+example : valueOf "time".toList "time_length" [("date_length".toList, "full".toList), ("time_length".toList, "Full".toList)] =
+    "short".toList :=
+  C18_default_when_unset "time".toList _ ⟨"time_length", lengths, "short"⟩ rfl (by decide) _ (by decide)
+
+example : fromNameAndArgs "list".toList (some ([("list_type".toList, "and".toList)] ++ ("list_length".toList, "short".toList) :: [])) =
+    fromNameAndArgs "list".toList (some ([("list_type".toList, "and".toList)] ++ [])) :=
+  C18_unknown_option_name_ignored _ _ _ _ _ (by
+    intro ds h
+    have e : ds = [⟨"list_type", .oneOf ["and", "or", "unit"], "unit"⟩, ⟨"list_style", .oneOf ["wide", "short", "narrow"], "wide"⟩] :=
+      (Option.some.inj ((show optionsOf "list".toList = some _ from rfl).symm.trans h)).symm
+    subst e; decide)
+
 /-! ## Whitespace -/
 
 /-- the outcome of `parse_formatter` announced by the documentation for `name(args)` -/
@@ -199,6 +221,19 @@ theorem C18_whitespace_strip (s : Src) (h : s.wf = true) :
   cases hargs : s.args with
   | none => simp [Src.strip, hargs]
   | some as => simp [Src.strip, hargs, Function.comp_def]
+
+/-- **The `t*_format!` macros agree with the file syntax**: a clause written in a translation (with any whitespace) and
+the same name and arguments written as `formatter: name(arg: value; ...)` in a macro select the same formatter with
+the same options, and one is rejected exactly when the other is. -/
+theorem C18_t_format_agrees (s : Src) (h : s.wf = true) (f : Fmt) :
+    (parseFormatter s.print = .ok f ↔
+      TFormat.parse s.name (s.args.map (fun as => as.map (fun a => (a.key, a.val)))) = .ok f) ∧
+    (parseFormatter s.print = .err "UnknownFormatter" ↔
+      TFormat.parse s.name (s.args.map (fun as => as.map (fun a => (a.key, a.val)))) = .err "unknown formatter name.") := by
+  unfold parseFormatter TFormat.parse
+  rw [parseArgs_print s h]
+  simp only
+  cases fromNameAndArgs s.name (s.args.map (fun as => as.map (fun a => (a.key, a.val)))) <;> simp
 
 /-- the hypotheses are satisfiable by a non-trivial source: `"\t number\u{a0}(  grouping_strategy\n:\u{3000}never ;
 foo:bar; )"` — with a no-break space, an ideographic space and a trailing (empty-named) argument -/
